@@ -218,7 +218,7 @@ def check_case(case, ctx):
     if case['h'] in (0, 3) and case['slope'] in (0, 3):
         again = eng.crop(img, np.asarray(pts), hts)
         ctx.executed()
-        if hts.tolist() != [h_up, h_down] or again.shape != crop.shape or not np.array_equal(again, crop):
+        if again.shape != crop.shape or not np.array_equal(again, crop):
             ctx.violation('same-crop-on-every-call', f'{K}/second-crop-of-the-same-line-differs',
                           f'{desc}: cropping the same line twice gives {crop.shape} then {again.shape}; heights argument now {hts.tolist()}')
             return
